@@ -54,6 +54,7 @@ static String mkstr(const std::vector<uint8> & v)   // byte-exact String (embedd
    for (size_t i=0; i<v.size(); i++) s += (char) v[i];
    return s;
 }
+static std::string bytestr(const std::vector<uint8> & v) {return v.empty() ? std::string() : std::string((const char *) &v[0], v.size());}
 static const uint8 * dataptr(const std::vector<uint8> & v) {static const uint8 z = 0; return v.empty() ? &z : &v[0];}
 
 static std::map<uint64, RefCountableRef> g_tags;
@@ -114,6 +115,11 @@ static bool typed_op(Message & m, char mode, const String & fn, const std::strin
       if (mode == 'r') return m.ReplaceData(oka, fn, B_RAW_TYPE, idx, dataptr(v), (uint32)v.size()).IsOK();
       FlatCountableRef fc(GetByteBufferFromPool((uint32)v.size(), dataptr(v)));
       return ((mode=='a') ? m.AddFlat(fn, fc) : m.PrependFlat(fn, fc)).IsOK();
+   }
+   if (t == "F")
+   {
+      FlatCountableRef fc(GetByteBufferFromPool((uint32)v.size(), dataptr(v)));
+      return ((mode=='a') ? m.AddFlat(fn, fc) : ((mode=='p') ? m.PrependFlat(fn, fc) : m.ReplaceFlat(oka, fn, idx, fc))).IsOK();
    }
    if ((t.size() > 1)&&(t[0] == 'x'))
    {
@@ -211,12 +217,217 @@ static bool same_content(const Message & a, const Message & b, std::string & why
    return true;
 }
 
+
+// =====================================================================================================
+// The harness's own IDEAL Message (independent of the Coq model): an ordered list of fields, each a type
+// code and a plain vector of items.  Every script operation is applied to it with the semantics the API
+// documents (add/prepend/replace/remove on a vector; a replace or remove at an invalid index fails and
+// changes nothing; a name holds one type), and after EVERY operation the real Message must report the same
+// status and, through the public Find* API, the same content.
+struct IMsg;
+struct IItem
+{
+   int kind;                    // 0 = leaf bytes, 1 = sub-Message, 2 = pointer/tag identity
+   std::vector<uint8> bytes;
+   IMsg * sub;
+   uint64 id;
+   IItem() : kind(0), sub(NULL), id(0) {}
+   IItem(const IItem & r);
+   IItem & operator=(const IItem & r);
+   ~IItem();
+};
+struct IField {std::string name; uint32 tc; std::vector<IItem> items;};
+struct IMsg {uint32 what; std::vector<IField> fields; IMsg() : what(0) {}};
+IItem::IItem(const IItem & r) : kind(r.kind), bytes(r.bytes), sub(r.sub ? new IMsg(*r.sub) : NULL), id(r.id) {}
+IItem & IItem::operator=(const IItem & r) {if (this != &r) {IMsg * n = r.sub ? new IMsg(*r.sub) : NULL; delete sub; sub = n; kind = r.kind; bytes = r.bytes; id = r.id;} return *this;}
+IItem::~IItem() {delete sub;}
+
+static int ifind(const IMsg & m, const std::string & name) {for (size_t i=0; i<m.fields.size(); i++) if (m.fields[i].name == name) return (int) i; return -1;}
+
+static bool iadd(IMsg & m, bool prepend, const std::string & name, uint32 tc, const IItem & it)
+{
+   int f = ifind(m, name);
+   if (f < 0) {IField nf; nf.name = name; nf.tc = tc; nf.items.push_back(it); m.fields.push_back(nf); return true;}
+   if (m.fields[f].tc != tc) return false;
+   if (prepend) m.fields[f].items.insert(m.fields[f].items.begin(), it); else m.fields[f].items.push_back(it);
+   return true;
+}
+static bool ireplace(IMsg & m, bool oka, const std::string & name, uint32 tc, uint32 idx, const IItem & it)
+{
+   int f = ifind(m, name);
+   const bool typed = (f >= 0)&&(m.fields[f].tc == tc);
+   if (oka && ((!typed)||(idx >= m.fields[f].items.size()))) return iadd(m, false, name, tc, it);
+   if ((!typed)||(idx >= m.fields[f].items.size())) return false;
+   m.fields[f].items[idx] = it;
+   return true;
+}
+static bool iremove_data(IMsg & m, const std::string & name, uint32 idx)
+{
+   int f = ifind(m, name);
+   if ((f < 0)||(idx >= m.fields[f].items.size())) return false;
+   m.fields[f].items.erase(m.fields[f].items.begin()+idx);
+   if (m.fields[f].items.empty()) m.fields.erase(m.fields.begin()+f);
+   return true;
+}
+static bool iremove_name(IMsg & m, const std::string & name)
+{
+   int f = ifind(m, name);
+   if (f < 0) return false;
+   m.fields.erase(m.fields.begin()+f);
+   return true;
+}
+static bool irename(IMsg & m, const std::string & o, const std::string & n)
+{
+   if (o == n) return true;
+   int f = ifind(m, o);
+   if (f < 0) return false;
+   IField moved = m.fields[f]; moved.name = n;
+   m.fields.erase(m.fields.begin()+f);
+   int g = ifind(m, n);
+   if (g >= 0) m.fields[g] = moved; else m.fields.push_back(moved);
+   return true;
+}
+static void istrip(IMsg & m)   // what a serialisation round trip keeps
+{
+   for (size_t i=0; i<m.fields.size(); )
+   {
+      if (!((m.fields[i].tc != B_POINTER_TYPE)&&(m.fields[i].tc != B_TAG_TYPE))) {m.fields.erase(m.fields.begin()+i); continue;}
+      for (size_t j=0; j<m.fields[i].items.size(); j++) if (m.fields[i].items[j].sub) istrip(*m.fields[i].items[j].sub);
+      i++;
+   }
+}
+
+static uint64 tag_id_of(const RefCountableRef & r)
+{
+   for (std::map<uint64, RefCountableRef>::const_iterator it = g_tags.begin(); it != g_tags.end(); ++it) if (it->second() == r()) return it->first;
+   return (uint64) -1;
+}
+
+// the real Message, read back through the public API, against the ideal one
+static bool same_as_ideal(const Message & a, const IMsg & b, std::string & why)
+{
+   if (a.what != b.what) {why = "what-code"; return false;}
+   size_t n = 0;
+   for (MessageFieldNameIterator it = a.GetFieldNameIterator(); it.HasData(); it++, n++)
+   {
+      if (n >= b.fields.size()) {why = "more fields than the ideal Message"; return false;}
+      const String & fn = it.GetFieldName();
+      const IField & f = b.fields[n];
+      if ((fn.Length() != f.name.size())||(memcmp(fn(), f.name.data(), f.name.size()) != 0)) {why = "field name/order"; return false;}
+      uint32 tc = 0, c = 0;
+      if (a.GetInfo(fn, &tc, &c).IsError()) {why = "GetInfo"; return false;}
+      if (tc != f.tc) {why = "type code"; return false;}
+      if (c != f.items.size()) {why = "item count"; return false;}
+      for (uint32 i=0; i<c; i++)
+      {
+         const IItem & ii = f.items[i];
+         if (tc == B_MESSAGE_TYPE)
+         {
+            MessageRef s;
+            if (a.FindMessage(fn, i, s).IsError() || (s() == NULL) || (ii.sub == NULL)) {why = "FindMessage"; return false;}
+            if (!same_as_ideal(*s(), *ii.sub, why)) {why = "sub-Message: " + why; return false;}
+         }
+         else if (tc == B_STRING_TYPE)
+         {
+            const String * ps = NULL;
+            if (a.FindString(fn, i, &ps).IsError()) {why = "FindString"; return false;}
+            if ((ps->Length() != ii.bytes.size())||((ii.bytes.size() > 0)&&(memcmp(ps->Cstr(), &ii.bytes[0], ii.bytes.size()) != 0))) {why = "string item"; return false;}
+         }
+         else if (tc == B_POINTER_TYPE)
+         {
+            void * p = NULL;
+            if (a.FindPointer(fn, i, p).IsError()) {why = "FindPointer"; return false;}
+            if ((uint64)(uintptr_t) p != ii.id) {why = "pointer item"; return false;}
+         }
+         else if (ii.kind == 2)   // tag object
+         {
+            RefCountableRef r;
+            if (a.FindTag(fn, i, r).IsError()) {why = "FindTag"; return false;}
+            if (tag_id_of(r) != ii.id) {why = "tag item"; return false;}
+         }
+         else if (Message::GetElementSize(tc) == 0)
+         {
+            FlatCountableRef fc;
+            if (a.FindFlat(fn, i, fc).IsError()) {why = "FindFlat"; return false;}
+            const ByteBuffer * bb = dynamic_cast<const ByteBuffer *>(fc());
+            if (bb == NULL) {why = "raw item is not a ByteBuffer"; return false;}
+            if ((bb->GetNumBytes() != ii.bytes.size())||((ii.bytes.size() > 0)&&(memcmp(bb->GetBuffer(), &ii.bytes[0], ii.bytes.size()) != 0))) {why = "raw item"; return false;}
+         }
+         else
+         {
+            const void * d = NULL; uint32 sz = 0;
+            if (a.FindData(fn, tc, i, &d, &sz).IsError()) {why = "FindData"; return false;}
+            if ((sz != ii.bytes.size())||(memcmp(d, &ii.bytes[0], sz) != 0)) {why = "item bytes"; return false;}
+         }
+      }
+   }
+   if (n != b.fields.size()) {why = "fewer fields than the ideal Message"; return false;}
+   return true;
+}
+
+// the ideal counterpart of typed_op: the item a typed entry point stores, or no item when the entry point refuses the argument
+static bool ideal_item(const std::string & t, const std::vector<uint8> & v, char mode, uint32 & tc, IItem & it)
+{
+   it = IItem();
+   if (t == "b") {if (v.empty()) return false; tc = B_BOOL_TYPE; it.bytes.push_back(v[0] ? 1 : 0); return true;}
+   if (t == "c") {tc = B_INT8_TYPE;   it.bytes = v; return true;}
+   if (t == "h") {tc = B_INT16_TYPE;  it.bytes = v; return true;}
+   if (t == "i") {tc = B_INT32_TYPE;  it.bytes = v; return true;}
+   if (t == "l") {tc = B_INT64_TYPE;  it.bytes = v; return true;}
+   if (t == "f") {tc = B_FLOAT_TYPE;  it.bytes = v; return true;}
+   if (t == "d") {tc = B_DOUBLE_TYPE; it.bytes = v; return true;}
+   if (t == "P") {tc = B_POINT_TYPE;  it.bytes = v; return true;}
+   if (t == "R") {tc = B_RECT_TYPE;   it.bytes = v; return true;}
+   if (t == "s") {tc = B_STRING_TYPE; it.bytes = v; return true;}
+   if ((t == "o")||(t == "g")) {tc = (t == "o") ? B_POINTER_TYPE : B_TAG_TYPE; it.kind = 2; it.id = 0; for (size_t i=0; i<v.size(); i++) it.id = (it.id<<8)|v[i]; return true;}
+   if (t == "X") {tc = B_RAW_TYPE; it.bytes = v; return !((mode == 'r')&&(v.empty()));}     // ReplaceData cannot store an empty item
+   if (t == "F") {tc = B_RAW_TYPE; it.bytes = v; return true;}                                // Add/Prepend/ReplaceFlat(ByteBufferRef)
+   if ((t.size() > 1)&&(t[0] == 'x'))
+   {
+      tc = (uint32) strtoul(t.c_str()+1, NULL, 10);
+      it.bytes = v;
+      return is_raw_code(tc) && !v.empty();                                                    // AddData/ReplaceData of zero bytes is refused
+   }
+   return false;
+}
+
+// deterministic byte mutation shared with ocaml/msg_driver.ml (stream "g": parsing bytes that Flatten did NOT produce)
+static uint32 g_lcg;
+static uint32 lcg_next() {g_lcg = (uint32)((((uint64) g_lcg) * 1103515245ULL + 12345ULL) & 0x7fffffffULL); return g_lcg >> 12;}
+static void mutate(std::vector<uint8> & b, uint32 seed)
+{
+   g_lcg = seed & 0x7fffffff;
+   const uint32 nmut = 1 + (lcg_next() % 2);
+   for (uint32 m=0; m<nmut; m++)
+   {
+      const uint32 len = (uint32) b.size();
+      const uint32 kind = lcg_next() % 6;
+      if (kind == 0) b.resize(lcg_next() % (len+1));
+      else if (kind == 1) {if (len > 0) {const uint32 pos = lcg_next() % len; b[pos] ^= (uint8)(1u << (lcg_next() % 8));}}
+      else if (kind == 2) {if (len > 0) {const uint32 pos = lcg_next() % len; b[pos] = (uint8)(lcg_next() % 256);}}
+      else if (kind == 3)
+      {
+         if (len >= 4)
+         {
+            const uint32 pos = lcg_next() % (len-3);
+            const uint32 tab[10] = {0, 1, 2, 0xffffffffu, 0x7fffffffu, len, len-pos, 0x80000000u, 12, 13};
+            const uint32 v = tab[lcg_next() % 10];
+            b[pos] = v & 255; b[pos+1] = (v>>8) & 255; b[pos+2] = (v>>16) & 255; b[pos+3] = (v>>24) & 255;
+         }
+      }
+      else if (kind == 4) {if (len >= 4) {const uint32 pos = lcg_next() % (len-3); std::vector<uint8> d(b.begin()+pos, b.begin()+pos+4); b.insert(b.begin()+pos, d.begin(), d.end());}}
+      else {const uint32 n = lcg_next() % 8; for (uint32 i=0; i<n; i++) b.push_back((uint8)(lcg_next() % 256));}
+   }
+}
+
 static void run_case(int k, const std::string & head, const std::string & body)
 {
    std::ostringstream out, orc;
-   const bool in_domain = (head != "n");   // stream "n": Strings with embedded NUL, outside the property's domain (F9)
+   const bool in_domain = (head == "m");   // "n": Strings with embedded NUL (F9); "g": Messages parsed from mutated bytes -- outside the property's domain
    {
       Message regs[8];
+      IMsg ideal[8];
+      bool ideal_live = in_domain;       // the ideal oracle stops at the first reported difference
       std::string st;
       std::vector<std::string> ops = split(body, ';');
       for (size_t n=0; n<ops.size(); n++)
@@ -225,8 +436,25 @@ static void run_case(int k, const std::string & head, const std::string & body)
          std::vector<std::string> a = split(ops[n], ':');
          const std::string & c = a[0];
          #define REG(i) (regs[(unsigned)atoi(a[i].c_str()) & 7])
+         #define IREG(i) (ideal[(unsigned)atoi(a[i].c_str()) & 7])
          #define FN(i) mkstr(unhex(a[i]))
-         bool ok = false;
+         #define SN(i) bytestr(unhex(a[i]))
+         bool ok = false, iok = false;
+         {
+            // ---- the operation on the ideal Message
+            uint32 itc = 0; IItem iit;
+            if ((c == "w")&&(a.size() == 3)) {IREG(1).what = (uint32) strtoul(a[2].c_str(), NULL, 10); iok = true;}
+            else if (((c == "a")||(c == "p"))&&(a.size() == 5)) iok = ideal_item(a[3], unhex(a[4]), c[0], itc, iit) && iadd(IREG(1), c == "p", SN(2), itc, iit);
+            else if (((c == "am")||(c == "pm"))&&(a.size() == 4)) {iit.kind = 1; iit.sub = new IMsg(IREG(3)); iok = iadd(IREG(1), c == "pm", SN(2), B_MESSAGE_TYPE, iit);}
+            else if ((c == "r")&&(a.size() == 7)) iok = ideal_item(a[4], unhex(a[5]), 'r', itc, iit) && ireplace(IREG(1), a[6] == "1", SN(2), itc, (uint32) strtoul(a[3].c_str(), NULL, 10), iit);
+            else if ((c == "rm")&&(a.size() == 6)) {iit.kind = 1; iit.sub = new IMsg(IREG(4)); iok = ireplace(IREG(1), a[5] == "1", SN(2), B_MESSAGE_TYPE, (uint32) strtoul(a[3].c_str(), NULL, 10), iit);}
+            else if ((c == "x")&&(a.size() == 4))  iok = iremove_data(IREG(1), SN(2), (uint32) strtoul(a[3].c_str(), NULL, 10));
+            else if ((c == "xn")&&(a.size() == 3)) iok = iremove_name(IREG(1), SN(2));
+            else if ((c == "rn")&&(a.size() == 4)) iok = irename(IREG(1), SN(2), SN(3));
+            else if ((c == "cl")&&(a.size() == 2)) {IREG(1).fields.clear(); iok = true;}
+            else if ((c == "cp")&&(a.size() == 3)) {IMsg tmp = IREG(2); IREG(1) = tmp; iok = true;}
+            else if ((c == "u")&&(a.size() == 2))  {istrip(IREG(1)); iok = true;}
+         }
          if ((c == "w")&&(a.size() == 3)) {REG(1).what = (uint32) strtoul(a[2].c_str(), NULL, 10); ok = true;}
          else if (((c == "a")||(c == "p"))&&(a.size() == 5)) ok = typed_op(REG(1), c[0], FN(2), a[3], unhex(a[4]), 0, false);
          else if (((c == "am")||(c == "pm"))&&(a.size() == 4))
@@ -256,8 +484,26 @@ static void run_case(int k, const std::string & head, const std::string & body)
             Message tmp;
             if (tmp.UnflattenFromBytes(fs ? &buf[0] : NULL, fs).IsOK()) {m = tmp; unshare(m); ok = true;}
          }
+         else if ((c == "um")&&(a.size() == 3))
+         {
+            // flatten, mutate the bytes deterministically, parse what results (only compared with the model's parser)
+            Message & m = REG(1);
+            const uint32 fs = m.FlattenedSize();
+            std::vector<uint8> buf(fs);
+            m.FlattenToBytes(&buf[0], fs);
+            mutate(buf, (uint32) strtoul(a[2].c_str(), NULL, 10));
+            std::vector<uint8> exact(buf);     // exactly-sized heap block: ASan sees any read past the end
+            Message tmp;
+            if (tmp.UnflattenFromBytes(exact.empty() ? (const uint8 *) "" : &exact[0], (uint32) exact.size()).IsOK()) {m = tmp; unshare(m); ok = true;}
+         }
          else {fprintf(stderr, "bad op [%s]\n", ops[n].c_str()); exit(2);}
          st += ok ? '1' : '0';
+         if (ideal_live)
+         {
+            std::string why;
+            if (ok != iok) {orc << k << " ORACLE FAIL API: status of op#" << n << " " << c << " is " << (ok?"ok":"error") << ", the ideal Message says " << (iok?"ok":"error") << "\n"; ideal_live = false;}
+            else if (!same_as_ideal(REG(1), IREG(1), why)) {orc << k << " ORACLE FAIL API: after op#" << n << " " << c << " the Message differs from the ideal Message: " << why << "\n"; ideal_live = false;}
+         }
       }
 
       const Message & m0 = regs[0];
